@@ -9,6 +9,7 @@ def natList? (s : String) : Option (List Nat) :=
 
 /-- payload:
   `sched <cell0> <clocks of thread 0>|<clocks of thread 1>|… <schedule>`  (lists `a,b,c` or `-`)
+  `burst <mode> <threads> <rounds> <seed>` — barrier-released concurrent rounds, cell behind the clock
   `repub <threads> <calls> <seed> <dups> <tasks>` — end-to-end republish run (see Republish.lean)
   `stress <threads> <calls>`   — free-running threads on the real clock; the model's prediction is
                                  that every call returns (no panic far below `u64::MAX`). -/
@@ -20,6 +21,11 @@ def handleLine (payload : String) : String :=
       if c0 ≤ cellMax ∧ clocks.all (·.all (· ≤ cellMax)) then render (runCase c0 clocks sched)
       else "bad-input"
     | _, _, _ => "bad-input"
+  | ["burst", _mode, th, rounds, _seed] =>
+    -- concurrent one-call bursts far below `u64::MAX`: every call returns (`panic_only_at_max`)
+    match th.toNat?, rounds.toNat? with
+    | some th, some rounds => s!"burst rounds={rounds} returned={th * rounds} panics=0"
+    | _, _ => "bad-input"
   | ["repub", th, calls, _seed, _dups, _tasks] =>
     -- Republish.last_published_wins: the store ends with the real-time-last publication (the
     -- `final` one, published after all threads returned) and the lookup decodes to it
